@@ -7,6 +7,8 @@
 #include <opm/io/eclipse/OutputStream.hpp>
 
 #include <cstring>
+#include <fstream>
+#include <iterator>
 #include <memory>
 
 using namespace probe;
@@ -210,4 +212,85 @@ PROBE_CMD(rst_read) {
         out.end_obj();
     }
     out.end_arr();
+}
+
+// ---------------------------------------------------------------- truncation scan (C08)
+namespace {
+struct Fnv {
+    std::uint64_t h = 1469598103934665603ull;
+    void bytes(const void* p, std::size_t n) {
+        const unsigned char* c = (const unsigned char*)p;
+        for (std::size_t i = 0; i < n; ++i) { h ^= c[i]; h *= 1099511628211ull; }
+    }
+    void u32(std::uint32_t v) { unsigned char b[4] = {(unsigned char)(v >> 24), (unsigned char)(v >> 16), (unsigned char)(v >> 8), (unsigned char)v}; bytes(b, 4); }
+    void u64(std::uint64_t v) { u32((std::uint32_t)(v >> 32)); u32((std::uint32_t)v); }
+};
+
+std::uint64_t hash_rst_array(E::ERst& rst, int i, int s, E::eclArrType type) {
+    Fnv f;
+    switch (type) {
+    case E::INTE: for (int v : rst.getRestartData<int>(i, s)) f.u32((std::uint32_t)v); break;
+    case E::REAL: for (float v : rst.getRestartData<float>(i, s)) { std::uint32_t b; std::memcpy(&b, &v, 4); f.u32(b); } break;
+    case E::DOUB: for (double v : rst.getRestartData<double>(i, s)) { std::uint64_t b; std::memcpy(&b, &v, 8); f.u64(b); } break;
+    case E::LOGI: for (bool v : rst.getRestartData<bool>(i, s)) f.u32(v ? 1 : 0); break;
+    case E::CHAR:
+    case E::C0NN: for (const auto& v : rst.getRestartData<std::string>(i, s)) { f.bytes(v.data(), v.size()); f.u32(0xFFFFFFFFu); } break;
+    case E::MESS: break;
+    }
+    return f.h;
+}
+}
+
+// {cmd:rst_trunc_scan, path, offsets:[...]} : for each offset o, copy the first o bytes of `path`
+// to a scratch file named like a unified restart file and observe what ERst makes of it.
+PROBE_CMD(rst_trunc_scan) {
+    const std::string path = jstr(req, "path");
+    std::string content;
+    {
+        std::ifstream in(path, std::ios::binary);
+        content.assign(std::istreambuf_iterator<char>(in), std::istreambuf_iterator<char>());
+    }
+    const std::string tpath = scratch_dir() + "/TRUNC.UNRST";
+    out.kv_i("size", content.size());
+    out.key("scan").arr();
+    for (int off : jints(jget(req, "offsets"))) {
+        {
+            std::ofstream o(tpath, std::ios::binary | std::ios::trunc);
+            o.write(content.data(), off);
+        }
+        out.obj().kv_i("o", off);
+        try {
+            E::ERst rst(tpath);
+            auto steps = rst.listOfReportStepNumbers();
+            out.key("steps").arr();
+            for (int s : steps) {
+                out.arr().i(s).b(rst.hasReportStepNumber(s));
+                out.arr();
+                try {
+                    auto arrays = rst.listOfRstArrays(s);
+                    for (std::size_t i = 0; i < arrays.size(); ++i) {
+                        const auto& [name, type, size] = arrays[i];
+                        out.arr().str(name).str(tname(type)).i(size);
+                        try {
+                            std::uint64_t h = hash_rst_array(rst, (int)i, s, type);
+                            out.u(h);
+                        } catch (const std::exception& e) {
+                            out.str(std::string("ERR:") + e.what());
+                        }
+                        out.end_arr();
+                    }
+                } catch (const std::exception& e) {
+                    out.str(std::string("ERR:") + e.what());
+                }
+                out.end_arr();
+                out.end_arr();
+            }
+            out.end_arr();
+        } catch (const std::exception& e) {
+            out.kv_s("err", e.what());
+        }
+        out.end_obj();
+    }
+    out.end_arr();
+    std::remove(tpath.c_str());
 }
